@@ -12,7 +12,7 @@ from harness.impl import fordrun as F
 from harness.impl import c18run as R
 
 IMPORTS = "From Ford Require Import Base.Str Out.Names Lex.Mask Gen.EscapeSites Out.Escape Corr.C18."
-THEOREMS = ["C18_mask_spec", "C18_mask_roundtrip", "C18_unmask_any_code", "C18_escape_inert",
+THEOREMS = ["C18_mask_spec", "C18_mask_roundtrip", "C18_unmask_any_code", "C18_lower_keeps_literals", "C18_escape_inert",
             "C18_sites_classified", "C18_sites_escaped", "C18_escape_text_inert"]
 NB = "\xa0"
 VIEW_CORPUS = ["k<n))", "a<b>c", "s<u>name", "x < y", "1<2", "a&b", "&lt;", "<)", "<b", "a<b c", "<i>",
@@ -66,6 +66,21 @@ def gen_expr(rng):
     return text
 
 
+def upper_outside(text):
+    """upper-case the code outside character literals (to give the `lower` option something to do)"""
+    out, q = [], None
+    for c in text:
+        if q is None:
+            out.append(c if c in "'\"" else c.upper())
+            if c in "'\"":
+                q = c
+        else:
+            out.append(c)
+            if c == q:
+                q = None
+    return "".join(out)
+
+
 def ok_text(x):
     return core.is_ascii(x) and "~" not in x and "\n" not in x and "\t" not in x and "!" not in x and ";" not in x
 
@@ -81,21 +96,24 @@ def unit_cases(chk, rng, n):
     decls = [(f"uc{i}", f"character(len=*), parameter :: uc{i} = ", e) for i, e in enumerate(EXPR_CORPUS)]
     for i in range(n):
         e = gen_expr(rng)
+        if rng.random() < 0.3:
+            e = upper_outside(e)
         if ok_text(e) and not e.rstrip().endswith("&"):
             decls.append((f"u{i}", f"character(len=*), parameter :: u{i} = ", e))
-    for chunk in [decls[i:i + 25] for i in range(0, len(decls), 25)]:
-        got = _parse_chunk(chunk)
+    for ci, chunk in enumerate([decls[i:i + 25] for i in range(0, len(decls), 25)]):
+        lw = ci % 2 == 1                 # the project option `lower`
+        got = _parse_chunk(chunk, lw)
         for (name, prefix, expr), (call, initial) in zip(chunk, got):
             line = prefix + expr
             if call is not None:
                 masked, strs = call
-                add(f"CMask {coq_str(line)} {coq_str(masked)} {coq_list(coq_str(x) for x in strs)}",
-                    {"f": "mask", "line": line, "masked": masked, "strings": strs},
+                add(f"CMask {coq_bool(lw)} {coq_str(line)} {coq_str(masked)} {coq_list(coq_str(x) for x in strs)}",
+                    {"f": "mask", "lower": lw, "line": line, "masked": masked, "strings": strs},
                     nontrivial=len(strs) > 0)
             out = None if initial is None else tr(initial)
             if out is None or core.is_ascii(out):
-                add(f"CInitial {coq_str(prefix)} {coq_str(expr)} {coq_opt(out, coq_str)}",
-                    {"f": "initial", "line": line, "impl": out})
+                add(f"CInitial {coq_bool(lw)} {coq_str(prefix)} {coq_str(expr)} {coq_opt(out, coq_str)}",
+                    {"f": "initial", "lower": lw, "line": line, "impl": out})
     # --- kind / length selectors with literals: declarations, typed FUNCTION statements (prefix parsed with the
     #     line's literal table), typed functions inside interface blocks
     sels = []
@@ -113,33 +131,38 @@ def unit_cases(chk, rng, n):
             sels.append((f"s{i}", where, "type(seltype_t(", sel, "proto"))
         else:
             sels.append((f"s{i}", where, f"{typ}({key}=", sel, key))
-    for chunk in [sels[i:i + 8] for i in range(0, len(sels), 8)]:
-        for (name, where, pre, sel, key), out in zip(chunk, _parse_selectors(chunk)):
+    for ci, chunk in enumerate([sels[i:i + 8] for i in range(0, len(sels), 8)]):
+        lw = ci % 2 == 1
+        for (name, where, pre, sel, key), out in zip(chunk, _parse_selectors(chunk, lw)):
             post = {"decl": f") :: {name}", "function": f") function {name}()", "interface": f") function {name}()",
                     "dim": ")", "proto": f")) :: {name}"}[where]
             out = None if out is None else tr(out)
             if out is not None and not core.is_ascii(out):
                 continue
-            add(f"CSelector {coq_str(pre)} {coq_str(sel)} {coq_str(post)} {coq_opt(out, coq_str)}",
-                {"f": "selector", "where": where, "statement": pre + sel + post, "impl": out})
+            add(f"CSelector {coq_bool(lw)} {coq_str(pre)} {coq_str(sel)} {coq_str(post)} {coq_opt(out, coq_str)}",
+                {"f": "selector", "lower": lw, "where": where, "statement": pre + sel + post, "impl": out})
     # --- PARAMETER statements
     pst = []
     for i in range(max(4, n // 6)):
         e = gen_expr(rng) if rng.random() < 0.7 else rng.choice(["merge(1,2,k<n)", "2*k+1", "k", "1 <= 2", "k==n", "3 >= 2"])
         if ok_text(e) and "[" not in e:
             pst.append((f"q{i}", e))
-    lines = []
-    for name, e in pst:
-        lines += [f"character(len=20) :: {name}", f"parameter ({name} = {e})"]
-    mod, _calls, _log = R.parse_lines(lines)
-    vals = {v.name: v.initial for v in mod.variables} if mod is not None else {}
-    for name, e in pst:
-        out = vals.get(name)
-        out = None if out is None else tr(out)
-        if out is not None and not core.is_ascii(out):
-            continue
-        add(f"CParamStmt {coq_str(name)} {coq_str(e)} {coq_opt(out, coq_str)}",
-            {"f": "parameter-statement", "name": name, "expr": e, "impl": out})
+    for lw in (False, True):
+        half = [pe for k, pe in enumerate(pst) if (k % 2 == 1) == lw]
+        lines = []
+        for name, e in half:
+            e2 = upper_outside(e) if name.endswith(("3", "7")) else e
+            lines += [f"character(len=20) :: {name}", f"parameter ({name} = {e2})"]
+        mod, _calls, _log = R.parse_lines(lines, lower=lw)
+        vals = {v.name: v.initial for v in mod.variables} if mod is not None else {}
+        for name, e in half:
+            e2 = upper_outside(e) if name.endswith(("3", "7")) else e
+            out = vals.get(name)
+            out = None if out is None else tr(out)
+            if out is not None and not core.is_ascii(out):
+                continue
+            add(f"CParamStmt {coq_bool(lw)} {coq_str(name)} {coq_str(e2)} {coq_opt(out, coq_str)}",
+                {"f": "parameter-statement", "lower": lw, "name": name, "expr": e2, "impl": out})
     # --- the e filter and the HTML reader
     for _ in range(n):
         x = "".join(rng.choice("<>&\"'\\ ab;#1/=") for _ in range(rng.choice([0, 1, 3, 6, 12])))
@@ -159,7 +182,7 @@ def unit_cases(chk, rng, n):
     return cases
 
 
-def _parse_selectors(chunk):
+def _parse_selectors(chunk, lw=False):
     """-> kind / strlen as stored by the real parser for each (name, where, pre, sel, key); None when the
     statement (or, with it, the whole file) could not be parsed"""
     decl = [f"{pre}{sel}) :: {name}" for (name, where, pre, sel, key) in chunk if where == "decl"]
@@ -177,11 +200,11 @@ def _parse_selectors(chunk):
             body += [f"{pre}{sel}) function {name}()", f"{name} = {'1' if key == 'kind' else chr(39) + 'x' + chr(39)}",
                      f"end function {name}"]
     lines = decl + (["interface"] + iface + ["end interface"] if iface else []) + ["contains"] + body
-    mod, _calls, _log = R.parse_lines(lines)
+    mod, _calls, _log = R.parse_lines(lines, lower=lw)
     if mod is None:
         if len(chunk) == 1:
             return [None]
-        return [x for c in chunk for x in _parse_selectors([c])]
+        return [x for c in chunk for x in _parse_selectors([c], lw)]
     vals = {}
     for v in mod.variables:
         vals[v.name] = v
@@ -205,16 +228,16 @@ def _parse_selectors(chunk):
     return out
 
 
-def _parse_chunk(chunk):
+def _parse_chunk(chunk, lw=False):
     """-> per declaration (spied (masked, strings) | None, initial | None)"""
     lines = [prefix + expr for (_n, prefix, expr) in chunk]
-    mod, calls, _log = R.parse_lines(lines)
+    mod, calls, _log = R.parse_lines(lines, lower=lw)
     if mod is None or len(calls) != len(chunk):
         if len(chunk) == 1:
             return [(calls[0] if calls else None, None)]
         out = []
         for c in chunk:
-            out += _parse_chunk([c])
+            out += _parse_chunk([c], lw)
         return out
     vals = {v.name: v.initial for v in mod.variables}
     return [(calls[i], vals.get(chunk[i][0])) for i in range(len(chunk))]
@@ -397,7 +420,8 @@ def witness_facts():
 
 
 def end_to_end(chk, rng, n, known):
-    jobs = [{"seed": rng.randrange(1 << 30), "mode": ("initial-only" if i % 3 == 0 else "all")} for i in range(n)]
+    jobs = [{"seed": rng.randrange(1 << 30), "mode": ("initial-only" if i % 3 == 0 else "all"), "lower": i % 4 == 1}
+            for i in range(n)]
     corpus = core.VERIF / "corpus" / "C18" / "jobs.json"
     if corpus.exists():
         jobs = json.load(open(corpus))["jobs"] + jobs
@@ -410,8 +434,8 @@ def end_to_end(chk, rng, n, known):
     tot, hits = {}, {}
     exposed, created = {}, {}
     for job, res in zip(jobs, results):
-        chk.count(("e2e", job["seed"], job.get("mode")), nontrivial=True,
-                  sample={"seed": job["seed"], "mode": job.get("mode"), "cells": res["stats"].get("cells"),
+        chk.count(("e2e", job["seed"], job.get("mode"), bool(job.get("lower"))), nontrivial=True,
+                  sample={"seed": job["seed"], "mode": job.get("mode"), "lower": bool(job.get("lower")), "cells": res["stats"].get("cells"),
                           "problems": len(res["problems"])})
         if res["error"]:
             chk.violation("failing-input", {"what": "FORD failed on a generated project", "error": res["error"],
